@@ -219,6 +219,20 @@ EDITS4 = [
 ]
 
 
+# ---------------------------------------------------------------- round 5 (Props.TieA5, docs/TRANSLATOR.md)
+EDITS5 = [
+    ('M81', 'mutation', 'C13', E,
+     "    write_terminator(buff, capacity, ver, len(buff))\n    # ISO/IEC 18004:2015(E) -- 7.4.10 Bit stream to codeword conversion (page 34)\n    write_padding_bits(buff, version, len(buff))\n",
+     "    write_padding_bits(buff, version, len(buff))\n    # ISO/IEC 18004:2015(E) -- 7.4.10 Bit stream to codeword conversion (page 34)\n    write_terminator(buff, capacity, ver, len(buff))\n",
+     '_encode: `write_padding_bits` called before `write_terminator`'),
+    ('M82', 'mutation', 'C01', E, '    add_version_info(matrix, version)\n    return Code(', '    return Code(',
+     '_encode: `add_version_info` dropped'),
+    ('H81', 'harmless', 'C13', E, '    height = width\n    matrix = make_matrix(width, height)\n    # ISO/IEC 18004:2015 -- 6.3.3 Finder pattern (page 16)',
+     '    height = calc_matrix_size(version)\n    matrix = make_matrix(width, height)\n    # ISO/IEC 18004:2015 -- 6.3.3 Finder pattern (page 16)',
+     '_encode: `height = width` written `height = calc_matrix_size(version)`'),
+]
+
+
 def special(eid, src):
     if eid in ('H51', 'H52', 'H55', 'H57', 'H58'):
         fn, pairs = {'H51': ('apply_mask', [('width_range', 'cols')]),
@@ -335,11 +349,11 @@ def main():
     ap.add_argument('-j', type=int, default=4)
     ap.add_argument('--only')
     ap.add_argument('--no-check', action='store_true')
-    ap.add_argument('--round', type=int, default=1, help='1: Props.TieA (EDITS), 2: Props.TieA2 (EDITS2), 3: Props.TieA3 (EDITS3), 4: Props.TieA4 (EDITS4)')
+    ap.add_argument('--round', type=int, default=1, help='1: Props.TieA (EDITS), 2: Props.TieA2 (EDITS2), 3: Props.TieA3 (EDITS3), 4: Props.TieA4 (EDITS4), 5: Props.TieA5 (EDITS5)')
     a = ap.parse_args()
     global TARGET
-    TARGET = {1: 'Props.TieA', 2: 'Props.TieA2', 3: 'Props.TieA3', 4: 'Props.TieA4'}[a.round]
-    edits = [e for e in {1: EDITS, 2: EDITS2, 3: EDITS3, 4: EDITS4}[a.round] if not a.only or e[0] in a.only.split(',')]
+    TARGET = {1: 'Props.TieA', 2: 'Props.TieA2', 3: 'Props.TieA3', 4: 'Props.TieA4', 5: 'Props.TieA5'}[a.round]
+    edits = [e for e in {1: EDITS, 2: EDITS2, 3: EDITS3, 4: EDITS4, 5: EDITS5}[a.round] if not a.only or e[0] in a.only.split(',')]
     os.makedirs(a.work, exist_ok=True)
     with ThreadPoolExecutor(a.j) as ex:
         results = list(ex.map(lambda e: one(e, a.work, not a.no_check), edits))
